@@ -70,6 +70,49 @@ def final_cancel_ok(m):
     return bool(ok), "(%s)" % ", ".join(a)
 
 
+def unwind_inverses(rep, r3, m):
+    """cmi_process_cancel_awaiteds undoes every kind of awaitable with the matching deregistration, on the registered
+    object and for this process (shared: R-C09-3, R-C04-9)."""
+    ca = m.need("cmi_process_cancel_awaiteds")
+    cx = FuncCtx(m, ca)
+    pp = ca.params[0]["name"]
+    kinds = m.enums.get("cmi_process_awaitable_type")
+    if not kinds:
+        raise AnalysisBroken("enum cmi_process_awaitable_type not found")
+    want = {"CMI_PROCESS_AWAITABLE_TIME": ("cmb_event_cancel", lambda a: len(a) == 1 and a[0].endswith("->handle")),
+            "CMI_PROCESS_AWAITABLE_RESOURCE": ("cmb_resourceguard_remove", lambda a: a[0].endswith("->ptr") and a[1] == pp),
+            "CMI_PROCESS_AWAITABLE_PROCESS": ("cmi_process_remove_waiter", lambda a: a[0].endswith("->ptr") and a[1] == pp),
+            "CMI_PROCESS_AWAITABLE_EVENT": ("cmi_event_remove_waiter", lambda a: a[0].endswith("->handle") and a[1] == pp)}
+    handled = {}
+    for x in walk(ca.body):
+        if x["kind"] == "IfStmt":
+            c = cx.canon(kids(x)[0])
+            mm = re.fullmatch(r"\(.+->type == (\w+)\)", c)
+            if mm:
+                calls = [(callee_ref(y), [cx.canon(z) for z in kids(y)[1:]]) for y in walk(kids(x)[1])
+                         if y["kind"] == "CallExpr" and callee_ref(y) and not (callee_ref(y) or "").startswith("cmi_assert")]
+                handled[mm.group(1)] = calls
+    for kd in kinds:
+        r3.instance("awaitable kind %s -> %s" % (kd, handled.get(kd)))
+        if kd not in handled:
+            rep.finding(r3, ca.name, "unhandled:" + kd, "awaitable kind %s is not unwound when a process is interrupted, "
+                        "stopped or ends" % kd, where=m.rel(ca.where))
+            r3.fail()
+            continue
+        w = want.get(kd)
+        if w is None:
+            r3.notes.append("new awaitable kind %s: deregistration not known to the checker" % kd)
+            r3.ok()
+            continue
+        good = any(nm == w[0] and w[1](a) for nm, a in handled[kd])
+        if not good:
+            rep.finding(r3, ca.name, "wrong-inverse:" + kd, "awaitable kind %s is unwound by %s; expected %s on the "
+                        "registered object and this process" % (kd, handled[kd], w[0]), where=m.rel(ca.where))
+            r3.fail()
+        else:
+            r3.ok()
+
+
 def rules(rep, m):
     SIG = common.signal_table(m)
     may_yield = m.reaches({"cmi_coroutine_transfer"})
@@ -160,44 +203,10 @@ def rules(rep, m):
                   "matching deregistration, recycles every tag and finally cancels every pending event of the process; "
                   "cmi_process_drop_resources invokes the drop callback of every held resource and recycles its tag",
                   floor=6)
+    unwind_inverses(rep, r3, m)
     ca = m.need("cmi_process_cancel_awaiteds")
     cx = FuncCtx(m, ca)
     pp = ca.params[0]["name"]
-    kinds = m.enums.get("cmi_process_awaitable_type")
-    if not kinds:
-        raise AnalysisBroken("enum cmi_process_awaitable_type not found")
-    want = {"CMI_PROCESS_AWAITABLE_TIME": ("cmb_event_cancel", lambda a: len(a) == 1 and a[0].endswith("->handle")),
-            "CMI_PROCESS_AWAITABLE_RESOURCE": ("cmb_resourceguard_remove", lambda a: a[0].endswith("->ptr") and a[1] == pp),
-            "CMI_PROCESS_AWAITABLE_PROCESS": ("cmi_process_remove_waiter", lambda a: a[0].endswith("->ptr") and a[1] == pp),
-            "CMI_PROCESS_AWAITABLE_EVENT": ("cmi_event_remove_waiter", lambda a: a[0].endswith("->handle") and a[1] == pp)}
-    handled = {}
-    for x in walk(ca.body):
-        if x["kind"] == "IfStmt":
-            c = cx.canon(kids(x)[0])
-            mm = re.fullmatch(r"\(.+->type == (\w+)\)", c)
-            if mm:
-                calls = [(callee_ref(y), [cx.canon(z) for z in kids(y)[1:]]) for y in walk(kids(x)[1])
-                         if y["kind"] == "CallExpr" and callee_ref(y) and not (callee_ref(y) or "").startswith("cmi_assert")]
-                handled[mm.group(1)] = calls
-    for kd in kinds:
-        r3.instance("awaitable kind %s -> %s" % (kd, handled.get(kd)))
-        if kd not in handled:
-            rep.finding(r3, ca.name, "unhandled:" + kd, "awaitable kind %s is not unwound when a process is interrupted, "
-                        "stopped or ends" % kd, where=m.rel(ca.where))
-            r3.fail()
-            continue
-        w = want.get(kd)
-        if w is None:
-            r3.notes.append("new awaitable kind %s: deregistration not known to the checker" % kd)
-            r3.ok()
-            continue
-        good = any(nm == w[0] and w[1](a) for nm, a in handled[kd])
-        if not good:
-            rep.finding(r3, ca.name, "wrong-inverse:" + kd, "awaitable kind %s is unwound by %s; expected %s on the "
-                        "registered object and this process" % (kd, handled[kd], w[0]), where=m.rel(ca.where))
-            r3.fail()
-        else:
-            r3.ok()
     # loop pops every tag and frees it; final pattern cancel after the loop
     from ..vals import is_assert_stmt as _is_assert
     loops = [x for x in walk(ca.body) if x["kind"] in ("WhileStmt", "ForStmt", "DoStmt") and not _is_assert(x)
